@@ -3,6 +3,7 @@
 package cl
 
 import (
+	"fmt"
 	"strings"
 
 	"github.com/ohler55/slip"
@@ -53,8 +54,8 @@ type MakeString struct {
 func (f *MakeString) Call(s *slip.Scope, args slip.List, depth int) slip.Object {
 	slip.CheckArgCount(s, depth, f, args, 1, 5)
 	size, ok := args[0].(slip.Fixnum)
-	if !ok || size < 0 {
-		slip.TypePanic(s, depth, "size", args[0], "fixnum")
+	if !ok || size < 0 || slip.ArrayMaxDimension < size {
+		slip.TypePanic(s, depth, "size", args[0], fmt.Sprintf("non-negative fixnum less than %d", slip.ArrayMaxDimension))
 	}
 	var c slip.Character
 	if 1 < len(args) {
